@@ -78,6 +78,12 @@ ARRAY_PARAMS = {
     "validate": [TIMES, TIMES],
 }
 
+# more Lean tokens that a Python local may be called (an escaped identifier is always valid Lean)
+SI.EXTRA_KEYWORDS |= {"rec", "nonrec", "prec", "forall", "exists", "mutual", "instance", "macro_rules", "syntax", "elab_rules",
+                      "initialize", "variable", "universe", "section", "namespace", "noncomputable", "private", "protected",
+                      "prefix", "postfix", "infix", "notation", "calc", "conv", "suffices", "show", "nomatch", "nofun", "termination_by",
+                      "decreasing_by", "where", "mut", "from", "at", "in", "fun", "assume", "obtain", "rcases", "intro"}
+
 # segindex.lean_type knows no `matching`; extend it (a pure extension: the kind never arises in segindex)
 _si_lean_type = SI.lean_type
 
